@@ -119,7 +119,10 @@ class Check:
                          if e.get('property') == pid]
         self.machinery_errors = []
         self.notes = []
-        shutil.rmtree(os.path.join(VERIF, 'replays', pid), ignore_errors=True)
+        # VERIF_REPLAY_DIR / VERIF_EVIDENCE_DIR: used by bin/seedmatrix to keep parallel runs against scratch trees apart
+        self.replay_root = os.environ.get('VERIF_REPLAY_DIR') or os.path.join(VERIF, 'replays')
+        self.evidence_root = os.environ.get('VERIF_EVIDENCE_DIR') or os.path.join(VERIF, 'evidence')
+        shutil.rmtree(os.path.join(self.replay_root, pid), ignore_errors=True)
 
     # ---- coverage bookkeeping ------------------------------------------------------------
     def add_tlc(self, res):
@@ -173,7 +176,7 @@ class Check:
             cov['notes'] = self.notes
         replay_paths = []
         if self.violations:
-            rdir = os.path.join(VERIF, 'replays', self.pid)
+            rdir = os.path.join(self.replay_root, self.pid)
             os.makedirs(rdir, exist_ok=True)
             bysig = {}
             for sig, wit in self.violations:
@@ -209,8 +212,8 @@ class Check:
             'wall_s': round(time.time() - self.t0, 2),
             'violations': len(self.violations),
         }
-        os.makedirs(os.path.join(VERIF, 'evidence'), exist_ok=True)
-        evpath = os.path.join(VERIF, 'evidence', self.pid + '.json')
+        os.makedirs(self.evidence_root, exist_ok=True)
+        evpath = os.path.join(self.evidence_root, self.pid + '.json')
         with open(evpath, 'w') as f:
             json.dump(ev, f, indent=1, default=str)
         for fid, (n, wit, e) in sorted(self.known.items()):
